@@ -419,6 +419,34 @@ CLAIMED = {
              "the formatter are not modelled: for them the crash oracle is the only evidence. Known finding: a few thousand "
              "nested parentheses overflow the native stack.",
         design="§7 C01"),
+
+    "C07": dict(
+        category="proof",
+        technique="Lean 4 proof (every error site of the machine model restores exactly + fixpoint induction, reusing the C08 simulation) + regenerated restore-shape table for built-in arms + JSON-session :resume transcripts",
+        text="Proved on the machine model with no site hypothesis: every error site of dispatch puts back the popped entry and "
+             "exactly the popped values in their original order (every_site_restores), so in a calm state (no tick limit, no "
+             "pending interrupt) an error step is followed, after any number of :resume, by the same error on the same frames "
+             "(error_restore_fixpoint, resume_any_number, resume_same_error). For the built-in arms outside the model the "
+             "restore shapes are re-extracted from eval.rs on every run and all must be receiver-first (decide, knownBad = []). "
+             "~520 sessions per quick run (every built-in arm with a wrong type at each position and arity +-1, every operator, "
+             "control/binding/call/struct/assert failures, at toplevel, in a function, in a closure) run `run` + :resume x3 "
+             "through reftest-json-session: message and position of every resume must equal the first error.",
+        note=TB + "Holds with the restore-order fix (about 70 sites), the if/match/for restore fixes and the unbound-hint fix. Known "
+             "findings: resuming after a struct-literal field error or a failed assert of a comparison panics.",
+        design="§7 C07"),
+    "C11": dict(
+        category="proof",
+        technique="Lean 4 partial proof (definition monotonicity of the machine, lifted through dispatch, step and eval) over a session model + incremental-vs-batch transcripts",
+        text="Proved so far: an evaluation that ends with a value under program p ends with the same value, after the same steps, "
+             "in the same state, under any extension of p by function definitions with fresh names (dispatch_mono_partial, "
+             "step_mono, eval_mono_partial), instantiated for one `run` request (request_defs_upfront_partial). For the property "
+             "itself ~400 error-free histories per quick run (1..8 inputs mixing function/enum definitions, toplevel lets, "
+             "assignments, expressions, prints; each name defined once) are submitted incrementally and as one input through "
+             "reftest-json-session; the last values must be equal, and both replies are compared with the session model.",
+        note=TB + "PARTIAL: the main theorem incremental_eq_batch is not proved (missing: added enum definitions, the sequencing "
+             "half, gluing over the history). Known finding C11/trailing-for-not-run: a toplevel `for` as the last expression of "
+             "a request is left pending after its first iteration (the eval-up-to special case leaks into `run`).",
+        design="§7 C11"),
 }
 
 NOT_YET = {}
